@@ -16,7 +16,7 @@ func encodingEnabledFor(cfg *ChainCfg, r *ChainReq) bool {
 	if cfg.Entry == "Nested" || cfg.Entry == "NestedFilter" {
 		return true // the outer container (encoding on) serves everything through a plain handler
 	}
-	if r.Target == "route" || r.Target == "post" {
+	if r.Target == "route" || r.Target == "post" || r.Target == "route2" {
 		switch cfg.RouteEnc {
 		case 1:
 			return true
